@@ -670,6 +670,7 @@ fn oracle(rep: &mut Report, b: &Built, dict: &Arc<FstDictionary>) {
     let fe_base = b.fe.clone();
     rep.count(&format!("fe:{}", fe_base));
     let inp = doc_json(b);
+    let vocab = c04_gen::vocab_in_nonprose(&b.text, &b.forbidden);
     // raw parser tokens and the tokens of the Document (what the rules see); `+ci` as harper-ls wraps comment parsers
     let variants: Vec<String> = if fe_base.starts_with("c:") || fe_base == "lhaskell" { vec![fe_base.clone(), format!("{fe_base}+ci")] } else { vec![fe_base.clone()] };
     for fe in variants {
@@ -689,13 +690,15 @@ fn oracle(rep: &mut Report, b: &Built, dict: &Arc<FstDictionary>) {
         for (what, toks) in [("parser", &raw), ("document", &doc)] {
             let expected: BTreeMap<usize, &str> = b.words.iter().map(|(o, w)| (*o, w.as_str())).collect();
             let mut seen: HashSet<usize> = HashSet::new();
+            // ---- pass 1: LOCATION of every token, also inside non-prose segments and known-finding regions (whether a
+            //      word may be offered there is pass 2's question; where it is must be right in any case)
             for t in toks.iter() {
                 if t.span.start > t.span.end || t.span.end > chars.len() {
                     fail_limited(rep, "token_out_of_bounds", format!("{fe}/{what}: token {:?} outside the file", t.span), inp.clone());
                     return;
                 }
-                let txt: String = chars[t.span.start..t.span.end].iter().collect();
                 if let TokenKind::Word(_) = t.kind {
+                    let txt: String = chars[t.span.start..t.span.end].iter().collect();
                     // "each at its true character offset", independent of the ground truth: a Word token covers a
                     // whole word of the file (no ASCII punctuation or space inside, not cut out of a longer ASCII alphanumeric run;
                     // the lexer itself splits words at non-English letters, which is C02's business)
@@ -706,7 +709,20 @@ fn oracle(rep: &mut Report, b: &Built, dict: &Arc<FstDictionary>) {
                         fail_limited(rep, &format!("word_misaligned:{}", fe_base), format!("{fe}/{what}: Word token {:?} covers {:?}, which is not a whole word of the file", t.span, txt), inp.clone());
                         return;
                     }
+                    // ... and with the ground truth: a vocabulary word standing in a non-prose segment, if it is touched
+                    // by a Word token at all, is covered by exactly that token
+                    if let Some((o, w)) = vocab.iter().find(|(o, w)| t.span.start < *o + w.chars().count() && *o < t.span.end) {
+                        if !(t.span.start == *o && t.span.end == *o + w.chars().count()) {
+                            fail_limited(rep, &format!("word_mislocated:{}", fe_base), format!("{fe}/{what}: Word token {:?} {:?} overlaps the vocabulary word {:?} at {o} without covering exactly it", t.span, txt, w), inp.clone());
+                            return;
+                        }
+                        rep.count("vocab_word_in_nonprose_offered_at_true_offset");
+                    }
                 }
+            }
+            // ---- pass 2: WHAT is offered
+            for t in toks.iter() {
+                let txt: String = chars[t.span.start..t.span.end].iter().collect();
                 if lintable_kind(&t.kind) {
                     if let Some((s, e, l)) = b.forbidden.iter().find(|(s, e, _)| t.span.start < *e && *s < t.span.end) {
                         let is_url_kind = matches!(t.kind, TokenKind::Url | TokenKind::EmailAddress | TokenKind::Hostname);
